@@ -374,6 +374,46 @@ theorem simplify_spec (rm l : List Suffix) :
     (∀ x, x ∈ simplify rm l ↔ x ∈ l ∧ x ∉ rm) ∧ (simplify rm l).Nodup :=
   ⟨fun _ => mem_simplify, nodup_simplify rm l⟩
 
+/-- **The three clauses pin the `Simplify` output down completely**: an output that is strictly
+sorted, invents nothing / keeps nothing removed, and loses nothing IS the model's output. -/
+theorem simplify_unique {rm l out : List Suffix} (h1 : simplifySortedUnique out = true)
+    (h2 : simplifyNothingInvented rm l out = true) (h3 : simplifyNothingLost rm l out = true) :
+    out = simplify rm l := by
+  apply strictSorted_ext _ _ h1 (strictSorted_simplify rm l)
+  intro x
+  rw [mem_simplify]
+  unfold simplifyNothingInvented at h2
+  unfold simplifyNothingLost at h3
+  rw [List.all_eq_true] at h2 h3
+  constructor
+  · intro hx
+    have := h2 x hx
+    simpa using this
+  · intro ⟨hx, hr⟩
+    have := h3 x hx
+    simp only [Bool.or_eq_true, List.contains_iff_mem] at this
+    rcases this with h | h
+    · exact absurd h hr
+    · exact h
+
+/-- both directions: the checker says `ok` exactly on the model's output -/
+theorem simplify_verdict_ok_iff (rm l out : List Suffix) :
+    simplifyVerdict rm l out = "ok" ↔ out = simplify rm l := by
+  constructor
+  · intro h
+    unfold simplifyVerdict at h
+    cases h1 : simplifySortedUnique out
+    · simp [h1] at h
+    · cases h2 : simplifyNothingInvented rm l out
+      · simp [h1, h2] at h
+      · cases h3 : simplifyNothingLost rm l out
+        · simp [h1, h2, h3] at h
+        · exact simplify_unique h1 h2 h3
+  · intro h
+    subst h
+    obtain ⟨h1, h2, h3⟩ := simplify_meets_clauses rm l
+    simp [simplifyVerdict, h1, h2, h3]
+
 /-- **The chain's `FundsHolderBalanceInvariant` says "holder covers the records" — both
 directions.** The Go invariant only looks at the denoms that occur in some record; on a holder
 account without a negative balance that is the same as covering EVERY denom. -/
@@ -498,6 +538,9 @@ example : simplify [["A"]] [["B"], ["A"], ["A", "B"], ["B"]] = [["A", "B"], ["B"
 example : simplifyVerdict [["A"]] [["B"], ["A"], ["A", "B"], ["B"]] [["B"], ["A", "B"]] = "fail:simplify_not_sorted_unique" := by decide
 example : simplifyVerdict [["A"]] [["B"], ["A"], ["A", "B"], ["B"]] [["A"], ["B"]] = "fail:simplify_invented_or_kept_removed" := by decide
 example : simplifyVerdict [["A"]] [["B"], ["A"], ["A", "B"], ["B"]] [["B"]] = "fail:simplify_lost_suffix" := by decide
+
+-- `simplify_unique`: the hypotheses are met by the model's own output (`simplify_meets_clauses`) and by nothing else
+example : simplifyVerdict [] [["B"], ["A"]] [["A"], ["B"]] = "ok" := by decide
 
 end Demo2
 
